@@ -268,6 +268,15 @@ func (p *Program) Named(rel, name string) *types.Named {
 
 // InModule reports whether fn belongs to the module under analysis
 // (including instantiations of module generics and anonymous functions).
+// InModulePkg reports whether pkg belongs to the analysed module.
+func InModulePkg(pkg *ssa.Package) bool {
+	if pkg == nil || pkg.Pkg == nil {
+		return false
+	}
+	pp := pkg.Pkg.Path()
+	return pp == ModulePath || strings.HasPrefix(pp, ModulePath+"/")
+}
+
 func InModule(fn *ssa.Function) bool {
 	if fn == nil {
 		return false
